@@ -121,7 +121,8 @@ func c04table() []c04attr {
 		{path: "S.volumes", class: "keyed", entries: [][3]any{{"/t1", "named:/t1", "./src:/t1:ro"}, {"/t2", "./a:/t2", "named:/t2"}, {"/t3", "/abs:/t3", "./b:/t3"}}},
 		// the same keys spelled in another way on the earlier side (a target that is not in clean form, a protocol left to its default)
 		{path: "S.volumes", variant: "~key-spellings", class: "keyed", entries: [][3]any{{"/t1", "named:/t1/", "./src:/t1:ro"}, {"/t2", "./a:/t2/./", "named:/t2"}, {"/t3", "/abs:/t3", "./b:/x/../t3"}}},
-		{path: "S.ports", variant: "~key-spellings", class: "keyed", entries: [][3]any{{"3000", "8000:3000/tcp", "8000:3000"}, {"3001", "8001:3001", "8001:3001/tcp"}}},
+		{path: "S.ports", variant: "~key-spellings", class: "keyed", entries: [][3]any{{"3000", "8000:3000/tcp", "8000:3000"}, {"3001", "8001:3001", "8001:3001/tcp"},
+			{"3002", "8002:3002", m("target", 3002, "published", "8002", "mode", "host")}, {"3003", m("target", 3003, "published", "8003", "protocol", "tcp"), m("target", 3003, "published", "8003", "mode", "host")}}},
 		{path: "S.ports", class: "keyed", entries: [][3]any{{"3000", "8000:3000", "8000:3000"}, {"3001", "8001:3001/udp", "8001:3001/udp"}, {"3002", "127.0.0.1:8002:3002", "127.0.0.1:8002:3002"}}},
 		{path: "S.devices", class: "keyed", entries: [][3]any{{"/dev/b", "/dev/a:/dev/b", "/dev/c:/dev/b:r"}, {"/dev/e", "/dev/d:/dev/e", "/dev/f:/dev/e"}}},
 		{path: "S.secrets", class: "keyed", entries: [][3]any{{"sec", "sec", m("source", "sec", "mode", 256)}, {"/x", m("source", "sec", "target", "/x"), m("source", "sec2", "target", "/x")},
